@@ -166,21 +166,14 @@ def case_rigid(kind, rot_idx, origin_idx, vel_idx):
     return CaseResult(fails=fails, states=states, transitions=states, traces=states, outcome=f"{kind}:{n}:{vel_idx}", extra={"markers": n})
 
 
-def case_interaction(kind, dtype, seed):
-    """Full path: ImmersedBodyFlowInteraction.__call__ / compute_flow_forces_and_torques on a real
-    velocity field; grid integral of the spread force density + net body force = 0."""
+def _make_interactor(kind, dim, dx, shape, real_t, forcing, vel, seed, offset=None):
     import sopht.simulator as sps
 
-    real_t = np.dtype(dtype).type
-    fails = []
-    dim = 2 if kind in ("cylinder2d", "edge", "element2") else 3
-    dx = lagcomm.DXS[0]
-    shape = lagcomm.SHAPES[dim]
-    n = int(np.prod(shape))
-    i = np.arange(dim * n, dtype=np.float64)
-    vel = (np.sin(0.61 * i + seed) + 0.3 * np.cos(1.7 * i)).reshape((dim, *shape)).astype(real_t)
-    forcing = np.zeros((dim, *shape), dtype=real_t)
     centre = np.array([shape[-1] * dx / 2, shape[-2] * dx / 2, (shape[0] * dx / 2 if dim == 3 else 0.0)])
+    if offset is not None:
+        centre = centre + np.array(offset) * dx
+        if dim == 2:
+            centre[2] = 0.0
     if kind in bodies.RIGID:
         rot = (bodies.rotations_2d() if dim == 2 else bodies.rotations_3d())[4 if dim == 2 else 25]
         body, _ = bodies.make_rigid(kind, rot, centre)
@@ -203,6 +196,73 @@ def case_interaction(kind, dtype, seed):
         inter = sps.CosseratRodFlowInteraction(cosserat_rod=rod, eul_grid_forcing_field=forcing, eul_grid_velocity_field=vel, virtual_boundary_stiffness_coeff=-3.0,
                                                virtual_boundary_damping_coeff=-0.5, dx=dx, grid_dim=dim, real_t=real_t, forcing_grid_cls=cls[0], **cls[1])
         body = rod
+    return inter, body
+
+
+def _flow_arrays(dim, shape, real_t, seed):
+    n = int(np.prod(shape))
+    i = np.arange(dim * n, dtype=np.float64)
+    vel = (np.sin(0.61 * i + seed) + 0.3 * np.cos(1.7 * i)).reshape((dim, *shape)).astype(real_t)
+    return vel, np.zeros((dim, *shape), dtype=real_t)
+
+
+def case_two_bodies(kind_a, kind_b, dtype, dx_idx, seed):
+    """Two bodies coupled to ONE flow (shared Eulerian velocity and forcing arrays), interactors called in
+    both orders: the fluid receives the SUM of both marker-force sets (each interactor accumulates, none
+    overwrites), each body receives minus its own."""
+    real_t = np.dtype(dtype).type
+    eps = float(np.finfo(real_t).eps)
+    fails = []
+    dim = 2 if kind_a in ("cylinder2d", "edge", "element2") else 3
+    dx = lagcomm.DXS[dx_idx]
+    shape = {2: (30, 34), 3: (20, 21, 24)}[dim]
+    vel, forcing = _flow_arrays(dim, shape, real_t, seed)
+    a, body_a = _make_interactor(kind_a, dim, dx, shape, real_t, forcing, vel, seed, offset=[-2.5, 1.0, 0.5])
+    b, body_b = _make_interactor(kind_b, dim, dx, shape, real_t, forcing, vel, seed + 1, offset=[2.0, -1.5, -0.5])
+    for it in (a, b):
+        it.time_step(dt=0.125)
+    states = 0
+    for order in ((a, b), (b, a), (a, b, a)):
+        forcing[...] = 0
+        for it in order:
+            it()
+        for it in (a, b):
+            it.compute_flow_forces_and_torques()
+        lag = [it.lag_grid_forcing_field.astype(np.float64) for it in order]
+        want = sum(x.sum(1) for x in lag)
+        scale = sum(np.abs(x).sum() for x in lag) + 1e-300
+        got = forcing.astype(np.float64).reshape(dim, -1).sum(1) * dx**dim
+        names = [("a" if it is a else "b") for it in order]
+        if not np.abs(got - want).max() <= 64 * eps * scale:
+            fails.append(Fail(f"two-bodies:{kind_a}+{kind_b}:fluid-side", "with two bodies on one flow the grid integral of the applied force density differs from the sum of all marker forces (an interactor overwrote instead of accumulating?)",
+                              order=names, integral=got.tolist(), markers=want.tolist()))
+        for it, nm in ((a, "a"), (b, "b")):
+            net = it.body_flow_forces[:dim].sum(1)
+            own = it.lag_grid_forcing_field.astype(np.float64).sum(1)
+            if not np.abs(net + own).max() <= max(1e-12, 16 * eps) * scale:
+                fails.append(Fail(f"two-bodies:{kind_a}+{kind_b}:body-side", "net force on a body is not minus the sum of ITS OWN marker forces when a second body shares the flow", body=nm, order=names))
+        states += 1
+        for it in (a, b):
+            it.time_step(dt=0.0625)
+    if max(np.abs(it.lag_grid_forcing_field).max() for it in (a, b)) == 0:
+        from harness.interp import HarnessError
+
+        raise HarnessError("C08 two-body case vacuous (zero forces)")
+    return CaseResult(fails=fails, states=states, transitions=states * 3, traces=states, outcome=f"two:{kind_a}+{kind_b}:{dtype}:{dx_idx}", extra={"markers": int(a.lag_grid_forcing_field.shape[1] + b.lag_grid_forcing_field.shape[1])})
+
+
+def case_interaction(kind, dtype, seed, dx_idx=0):
+    """Full path: ImmersedBodyFlowInteraction.__call__ / compute_flow_forces_and_torques on a real
+    velocity field; grid integral of the spread force density + net body force = 0."""
+    import sopht.simulator as sps
+
+    real_t = np.dtype(dtype).type
+    fails = []
+    dim = 2 if kind in ("cylinder2d", "edge", "element2") else 3
+    dx = lagcomm.DXS[dx_idx]
+    shape = lagcomm.SHAPES[dim] if dx_idx == 0 else {2: (30, 34), 3: (20, 21, 24)}[dim]
+    vel, forcing = _flow_arrays(dim, shape, real_t, seed)
+    inter, body = _make_interactor(kind, dim, dx, shape, real_t, forcing, vel, seed)
     inter.time_step(dt=0.125)  # non-trivial integral term afterwards
     inter()  # spreads onto the Eulerian forcing field
     inter.time_step(dt=0.125)
@@ -239,7 +299,7 @@ def case_interaction(kind, dtype, seed):
     return CaseResult(fails=fails, states=1, transitions=6, traces=1, outcome=f"interaction:{kind}:{dtype}", extra={"markers": int(lag.shape[1])})
 
 
-CASES = {"rod": case_rod, "rigid": case_rigid, "interaction": case_interaction}
+CASES = {"rod": case_rod, "rigid": case_rigid, "interaction": case_interaction, "two_bodies": case_two_bodies}
 
 
 def run(r) -> None:
@@ -268,7 +328,12 @@ def run(r) -> None:
                     rigid_cases.append(dict(kind=kind, rot_idx=ri, origin_idx=oi, vel_idx=vi))
     r.run_cases("rigid-grids", "rigid", rigid_cases, chunksize=8)
     inter = [dict(kind=k, dtype=dt, seed=r.seed) for k in ("cylinder2d", "edge", "element2", "sphere", "cylinder3d", "plane", "surface-cap", "element3") for dt in ("float64", "float32")]
+    inter += [dict(kind=k, dtype="float64", seed=r.seed, dx_idx=1) for k in ("cylinder2d", "edge", "sphere", "element3")]  # non-dyadic spacing
     r.run_cases("full-interaction", "interaction", inter)
+    pairs2, pairs3 = ["cylinder2d", "edge", "element2"], ["sphere", "cylinder3d", "plane", "surface-cap", "element3"]
+    two = [dict(kind_a=a, kind_b=b, dtype=dt, dx_idx=di, seed=r.seed) for grp in (pairs2, pairs3) for a in grp for b in grp
+           for dt, di in ((("float64", 0), ("float32", 1)) if not quick or a == b or (a, b) in (("cylinder2d", "edge"), ("sphere", "element3"), ("plane", "cylinder3d")) else ())]
+    r.run_cases("two-bodies-one-flow", "two_bodies", two)
     r.bounds = {"rod_grids": bodies.ROD_GRIDS, "n_elems": [2, 3, 5], "taper": [False, True], "bent": [False, True], "surface_density": [8, 1, 4, 12],
                 "rotations_3d": "24 cube rotations + 3 generic", "rotations_2d": 7, "rigid": bodies.RIGID, "unit_forces": "every marker x component", "body_velocity_basis": 6}
     r.extra["rule"] = "one state per unit marker force (marker x component) per (grid, body parameters, pose); full-interaction: one state per body kind/precision"
